@@ -462,3 +462,8 @@ case("c10-twin-g2-sign-form", "C10", SWU, "    if t.sgn0 != y.sgn0:\n        y =
      "    if not (t.sgn0 == y.sgn0):\n        y = y * -1\n\n    y = denominator * y\n\n    return (numerator, y, denominator)", expect="silent")
 case("c10-twin-iso-temp", "C10", SWU, "    z_G2 = mapped_values[1] * mapped_values[3]  # x-denominator * y-denominator",
      "    xd, ydz = mapped_values[1], mapped_values[3]\n    z_G2 = ydz * xd", expect="silent")
+
+# ---------------------------------------------------------------- whole-tree twins
+CASES.append({"id": "all-twin-reformatted-tree", "props": [f"C{i:02d}" for i in range(1, 21)], "edits": [], "expect": "silent",
+              "rule": None, "transform": "unparse"})
+case("c10-g1-exceptional-guard-on-t", "C10", SWU, "    if denominator == FQ.zero():\n        denominator = ISO_11_Z * ISO_11_A", "    if t == FQ.zero():\n        denominator = ISO_11_Z * ISO_11_A", rule="C10.R2")
